@@ -5,7 +5,7 @@ from kv import Case, xn, xl, xlist, xbool
 
 ID = "C12"
 MODULE = "C12"
-IMPORTS = "Bytes RustInt Limiter LimiterProofs LimiterConc LimiterConcProofs"
+IMPORTS = "Bytes RustInt Limiter LimiterProofs LimiterConc LimiterConcProofs LimiterHosts LimiterHostsProofs"
 PROFILES = ("dev", "nochk")
 FEATURES = ("hooks",)       # the accept loop's hook points: accept errors are provoked and counted on the real listener
 # cases whose real-time schedule could not be kept (or whose server could not be started) after 3 attempts in the
@@ -172,6 +172,19 @@ THEOREMS = [
      "forall (checked : bool) (cfg : config) (nsh : nat) (shard : N -> nat) (t0 : N) (h : list event), "
      "check_every cfg <= usize_max -> (forall k, (shard k < nsh)%nat) -> "
      "concseq_decisions checked cfg nsh shard t0 h = decisions checked cfg t0 h"),
+    ("hosts_server_refines_reference",
+     "forall (checked : bool) (mc : mconfig) (t0 : N) (evs : list mevent), "
+     "fits (mcalls_bound evs) -> maccept_loop checked mc t0 evs = spec_mserver mc t0 evs"),
+    ("hosts_have_their_own_counters",
+     "forall (checked : bool) (mc : mconfig) (p : mlims) (a t : N), ask checked mc p a t TUnknown = None /\\ "
+     "(forall k, (length (m_extra mc) <= k)%nat -> ask checked mc p a t (THost (S k)) = None) /\\ "
+     "(forall k p1 d, ask checked mc p a t (THost (S k)) = Some (p1, d) -> "
+     "fst p1 = fst p /\\ (forall j, j <> k -> nth_error (snd p1) j = nth_error (snd p) j)) /\\ "
+     "(forall p1 d, ask checked mc p a t (THost O) = Some (p1, d) -> snd p1 = snd p)"),
+    ("hosts_embedding",
+     "forall (checked : bool) (sc : sconfig) (t0 : N) (cs : list connection), "
+     "maccept_loop checked {| m_base := sc; m_extra := [] |} t0 (map m_of cs) "
+     "= (map up (fst (accept_loop checked sc t0 (map conn_of cs))), snd (accept_loop checked sc t0 (map conn_of cs)))"),
     ("listener_dies_063_refuted",
      "let sc := same_limiter {| max_requests := 0; check_every := 1; reset_after := Some 10000 |} in "
      "accept_loop_063 true sc 0 [Conn 1 0 []; Conn 2 1 [1]] = ([Served [] true; Refused], ReturnedOk) /\\ "
@@ -502,6 +515,96 @@ def gen_server(rng, quick):
     return cases
 
 
+def hsrv(mx, ce, reset, extra, evs, kind, profile="dev", path=0, pre=None):
+    """A collection of 1 + len(extra) hosts; evs: (addr, wait_ms, [target, ...]) | ("errs", n) | ("shutdown",); target i = the i-th
+    host, 99 = a name that no host has."""
+    if pre is None:
+        xp = xl()
+    else:
+        xp = xl(xn(0 if pre[0] == "own" else 1), cfg(pre[1], pre[2], pre[3]))
+    sconf = xl(xn(path), cfg(mx, ce, reset), xp, xn(0), xlist([cfg(*e) for e in extra]))
+    xe = []
+    for e in evs:
+        if e[0] == "errs":
+            xe.append(xl(xn(200), xn(e[1])))
+        elif e[0] == "shutdown":
+            xe.append(xl(xn(201)))
+        else:
+            xe.append(xl(xn(e[0]), xn(e[1]), xlist([xn(t) for t in e[2]])))
+    meta = {"kind": kind, "host": (mx, ce, reset), "extra": extra, "pre": pre, "hevs": evs}
+    return [Case("limiter.hosts", xl(xbool(profile == "dev"), sconf, xlist(xe)), "limiter.hosts_spec", meta, profile)]
+
+
+def gen_hosts(rng, quick):
+    """Several hosts in one collection (each with its own manager; the pre-host limiter shares the first one's counters) and
+    requests that name no host (409, connection closed, no host limiter asked)."""
+    cases = []
+    # one address uses up host 1 while host 0 and host 2 still answer it; the other address is untouched
+    cases += hsrv(2, 1, HOUR, [(1, 1, HOUR), (3, 1, HOUR)], [(0, 0, [1] * 6 + [0, 2, 2]), (1, 0, [1, 0, 2]), (0, 0, [1]), (0, 0, [2, 0])], "hosts")
+    # the routed host's limiter is the one that is asked, not the first / default host's (max 0 there)
+    cases += hsrv(0, 1, HOUR, [(5, 1, HOUR)], [(0, 0, [1] * 3)], "hosts", pre=("own", 50, 1, HOUR))
+    cases += hsrv(5, 1, HOUR, [(0, 1, HOUR)], [(0, 0, [0, 0, 1, 0])], "hosts", "nochk", path=1)
+    # unknown hosts: 409 and closed, never counted by a host limiter — only at accept
+    cases += hsrv(1, 1, HOUR, [], [(0, 0, [99])] * 6 + [(1, 0, [99, 0]), (1, 0, [0])], "hosts-unknown")
+    cases += hsrv(2, 1, HOUR, [(1, 1, HOUR)], [(0, 0, [0, 99, 0]), (0, 0, [7]), (0, 0, [1, 1, 99]), (0, 0, [1]), (1, 0, [1, 0])], "hosts-unknown", "nochk")
+    cases += hsrv(5, 1, HOUR, [(1, 1, HOUR)], [(0, 0, [99])] * 3 + [(0, 0, [0] * 20), (0, 0, [99]), (1, 0, [99])], "hosts-unknown", pre=("own", 1, 1, HOUR))
+    cases += hsrv(2, 1, HOUR, [(1, 1, HOUR)], [(0, 0, [1, 0]), ("errs", 100), (0, 0, [99]), ("errs", 101), (1, 0, [1]), (0, 0, [0])], "hosts-events")
+    cases += hsrv(2, 1, HOUR, [(1, 1, HOUR)], [(0, 0, [1, 0]), ("shutdown",), (0, 0, [1])], "hosts-events", "nochk")
+    for i in range(10 if quick else 150):
+        mx = rng.choice([0, 1, 2, 5])
+        ce = rng.choice([1, 1, 2])
+        extra = [(rng.choice([0, 1, 2, 3]), rng.choice([1, 1, 2]), rng.choice([HOUR, "inf"])) for _ in range(rng.randrange(0, 4))]
+        evs = []
+        for _ in range(rng.randrange(3, 9)):
+            tg = [rng.choice(list(range(len(extra) + 1)) * 3 + [99, len(extra) + 1]) for _ in range(rng.choice([1, 2, 3, 8]))]
+            evs.append((rng.randrange(0, 3), 0, tg))
+        cases += hsrv(mx, ce, rng.choice([HOUR, "inf", 0]), extra, evs, "hosts-random", PROFILES[i % 2], path=i % 2,
+                      pre=rng.choice([None, None, ("own", rng.randrange(0, 4), 1, HOUR), ("clone", rng.randrange(0, 4), 1, HOUR)]))
+    return cases
+
+
+def py_hosts(host, extra, pre, evs):
+    managers = [PyLimiter(*host)] + [PyLimiter(*e) for e in extra]
+    cfgs = [_Cfg(*host)] + [_Cfg(*e) for e in extra]
+    if pre is None:
+        pl, pc = managers[0], cfgs[0]
+    elif pre[0] == "clone":
+        pl, pc = managers[0], _Cfg(*pre[1:])
+    else:
+        pl, pc = PyLimiter(*pre[1:]), _Cfg(*pre[1:])
+    now, out, fails, ended = 0, [], 0, False
+    for e in evs:
+        if e[0] == "errs":
+            fails += e[1]
+            ended = ended or fails > 100
+            continue
+        if e[0] == "shutdown":
+            ended = True
+            continue
+        a, dt, tgs = e
+        now += dt
+        if ended:
+            out.append("refused")
+            continue
+        fails = 0
+        if pl.register(a, now, pc) == 2:
+            out.append(([], 1))
+            continue
+        st, cut = [], 0
+        for n, t in enumerate(tgs):
+            if t == 99 or t > len(extra):
+                st.append(409)
+                cut = 1 if n + 1 < len(tgs) else 0
+                break
+            d = managers[t].register(a, now, cfgs[t])
+            if d == 2:
+                cut = 1
+                break
+            st.append(200 if d == 0 else 429)
+        out.append((st, cut))
+    return out
+
+
 def gen_events(rng, quick):
     """Accept errors (EMFILE on the real listener, counted by the hook points of the accept loop) and shutdown requests
     between the connections: every constant of the error arm (threshold 100, reset of the failure counter by an accepted
@@ -640,6 +743,7 @@ def generate(rng, tier):
     # ---- the real-server runs that wait for the reset interval first: they spread over the shards -------
     cases += gen_server(rng, quick)
     cases += gen_events(rng, quick)
+    cases += gen_hosts(rng, quick)
     cases += gen_conc(rng, quick)
     cases += gen_neighbours(rng, quick)
     # ---- corpus: the finding of this property ------------------------------------------------------
@@ -843,6 +947,23 @@ def extra_oracle(c, i):
             return ("concurrent calls: (answers harsher than the ladder on the address's own calls begun so far, panics, calls) must be "
                     "(0, 0, %d)" % total)
         return None
+    if c.comp == "limiter.hosts" and "hevs" in c.meta:
+        try:
+            got, alive = _parse_server(i)
+        except Exception as e:        # noqa: BLE001
+            return "unreadable server outcome: %r" % (e,)
+        for n, g in enumerate(got):
+            if isinstance(g, tuple) and g[0] == "no reaction":
+                return "connection #%d: the server neither answered nor closed the connection; answers before: %r" % (n + 1, g[1])
+        if alive == 4:
+            return "at the end of the history a new connection is neither answered nor closed: the accept loop is blocked"
+        want = py_hosts(c.meta["host"], c.meta["extra"], c.meta["pre"], c.meta["hevs"])
+        if len(got) != len(want) or any(g != w for g, w in zip(got, want)):
+            n = next((n for n, (g, w) in enumerate(zip(got, want)) if g != w), min(len(got), len(want)))
+            return ("connection #%d: got %r; one reference ladder per host (the routed host's own limiter and counters; 409 and close for "
+                    "a name no host has, which no host limiter counts) gives %r" % (n + 1, got[n] if n < len(got) else None,
+                                                                                    want[n] if n < len(want) else None))
+        return None
     if c.comp in ("limiter.server", "limiter.server_ev") and "conns" in c.meta:
         try:
             got, alive = _parse_server(i)
@@ -915,7 +1036,7 @@ def signature(c, m):
         return "concurrent"
     if c.comp in ("limiter.register", "limiter.ops", "limiter.concseq"):
         return "limited" if ("(N 1)" in m or "(N 2)" in m) and c.meta.get("kind") != "malformed" else None
-    return "limited" if ("(N 429)" in m or "(N 3)" in m or "(N 1))" in m) else None
+    return "limited" if ("(N 429)" in m or "(N 409)" in m or "(N 3)" in m or "(N 1))" in m) else None
 
 
 def directed(rng, mismatches):
